@@ -12,7 +12,7 @@ from harness.drivers import channel as dc
 INVS = ["EofOnce", "CloseOnce", "NoDataAfterCtl", "CloseAnswered", "ReleasedInv", "NoSendAfterRelease"]
 BASE = dict(UsersA={"a1", "a2"}, UsersB={"b1"}, Daemons="@{}", OpsA="@{}", OpsB="@{}", MaxCalls=1, W0=4, MaxPkt=2, PeerMax=2,
             Thresh=1, SendN=3, Codes={1}, ReadSizes={2}, Modes={"block"}, Loss=False,
-            FixRace=True, FixSendall=True, FixCredit=True, Mut="none", SpinCap=3)
+            FixRace=True, FixSendall=True, FixCredit=True, Mut="none", SpinCap=3, HoldBack=False)
 U = 4032
 SITES = {"close": "close", "shutdown_write": "shutdown", "shutdown_rw": "shutdown"}
 
